@@ -538,7 +538,7 @@ pub fn edit_models(rng: &mut Rng, m: &mut Vec<TableDef>, profile: Profile) -> &'
         }
         return "big_step";
     }
-    match rng.below(23) {
+    match rng.below(24) {
         0 => {
             // add table
             let mut pool: Vec<&str> = TABLE_POOL.to_vec();
@@ -891,6 +891,58 @@ pub fn edit_models(rng: &mut Rng, m: &mut Vec<TableDef>, profile: Profile) -> &'
                         return "remove_check_and_column";
                     }
                 }
+            }
+            "noop"
+        }
+        23 => {
+            // a table drops the column whose NAME equals the referenced column of its own foreign key (comment.id next to
+            // comment.post_id -> post.id), makes the foreign-key column its primary key and changes the foreign key's ON DELETE:
+            // apply_action(DeleteColumn) filters ref_columns by name too, so the evolving schema loses the foreign key before the
+            // plan's RemoveConstraint / AddConstraint of it are rendered
+            for ti2 in 0..m.len() {
+                let Ok(mut n) = m[ti2].normalize() else { continue };
+                let hit = n.constraints.iter().find_map(|c| match c {
+                    TableConstraint::ForeignKey { columns, ref_table, ref_columns, .. }
+                        if columns.len() == 1 && ref_columns.len() == 1 && *ref_table != n.name && columns[0] != ref_columns[0]
+                            && n.columns.iter().any(|c| c.name == ref_columns[0]) => Some((columns[0].clone(), ref_columns[0].clone())),
+                    _ => None,
+                });
+                let Some((fkcol, gone)) = hit else { continue };
+                if n.columns.len() < 3 {
+                    continue;
+                }
+                for c in n.columns.iter_mut() {
+                    c.primary_key = None;
+                    c.unique = None;
+                    c.index = None;
+                    c.foreign_key = None;
+                }
+                n.columns.retain(|c| c.name != gone);
+                n.constraints.retain(|c| match c {
+                    TableConstraint::PrimaryKey { .. } => false,
+                    TableConstraint::Unique { columns, .. } | TableConstraint::Index { columns, .. } => !columns.contains(&gone),
+                    TableConstraint::ForeignKey { columns, .. } => !columns.contains(&gone),
+                    TableConstraint::Check { expr, .. } => !expr.contains(&gone),
+                });
+                for c in n.constraints.iter_mut() {
+                    if let TableConstraint::ForeignKey { columns, on_delete, .. } = c {
+                        if columns[0] == fkcol {
+                            *on_delete = if on_delete.is_none() { Some(ReferenceAction::Cascade) } else { None };
+                        }
+                    }
+                }
+                if let Some(c) = n.columns.iter_mut().find(|c| c.name == fkcol) {
+                    c.nullable = false;
+                }
+                n.constraints.insert(0, TableConstraint::PrimaryKey { auto_increment: false, columns: vec![fkcol] });
+                // nothing else may reference the dropped column
+                let tname = n.name.clone();
+                let referenced = m.iter().any(|o| o.normalize().map(|x| x.constraints.iter().any(|c| matches!(c, TableConstraint::ForeignKey { ref_table, ref_columns, .. } if *ref_table == tname && ref_columns.contains(&gone)))).unwrap_or(true));
+                if referenced {
+                    continue;
+                }
+                m[ti2] = n;
+                return "drop_column_named_like_fk_target";
             }
             "noop"
         }
